@@ -86,19 +86,29 @@ func init() {
 			fmt.Fprintf(&prov, "//go:nosplit\nfunc lf%swNosplit() string { return %s }\n", mk, q(add(ln(17), "string", "nosplit", "nosplit function")))
 			fmt.Fprintf(&prov, "func lf%swSwitch(s string) int {\n\tswitch s {\n\tcase %s:\n\t\treturn 1\n\t}\n\treturn 0\n}\n", mk, q(add(ln(18), "string", "case-label", "")))
 			fmt.Fprintf(&prov, "func lf%swLocal() (string, []byte) {\n\ta := %s\n\tb := []byte{%s}\n\treturn a, b\n}\n", mk, q(add(ln(19), "string", "local", "")), byteElems(add(big(20), "bytes", "local", "")))
+			// a -ldflags=-X target, and a local variable that merely shares its name
+			target := "Lx" + mk + "w"
+			fmt.Fprintf(&prov, "var %s = %s\n", target, q(add(ln(24), "string", "ldflags-target-decl", "-ldflags=-X target")))
+			fmt.Fprintf(&prov, "func lf%swShadow() string {\n\tvar %s = %s\n\treturn %s\n}\n", mk, target, q(add(ln(25), "string", "local-named-like-ldflags-target", "")), target)
+			sym := "main"
+			if p.curPkg != 0 {
+				sym = p.Spec.ImportPath(p.curPkg)
+			}
+			p.ExtraLd = append(p.ExtraLd, fmt.Sprintf("-X '%s.%s=injected-%s'", sym, target, mk))
 			argLit, anyLit, genLit := add(ln(21), "string", "argument", ""), add(ln(22), "string", "any-argument", ""), add(ln(23), "string", "generic-argument", "")
 			// --- everything is printed, so nothing is dead code
 			fmt.Fprintf(&prov, "func Lits%sw(emit func(string)) {\n", mk)
 			for _, e := range []string{
 				"Lv" + mk + "w1", "string(lv" + mk + "w2)", "string(lv" + mk + "w3[:])", "string(*lv" + mk + "w4)", "Lc" + mk + "w5", "string(lc" + mk + "w6)", "string(lv" + mk + "w7)", "lv" + mk + "w8",
 				"lv" + mk + "w9.A", "string(lv" + mk + "w9.b)", "ls" + mk + "w[0]", "li" + mk + "w", "lf" + mk + "wRet()", "lv" + mk + "w9.Meth()", "lcl" + mk + "w()", "lf" + mk + "wNosplit()",
+				target, "lf" + mk + "wShadow()",
 				"lf" + mk + "wArg(" + q(argLit) + ")", "lf" + mk + "wAny(" + q(anyLit) + ")", "lf" + mk + "wGen(" + q(genLit) + ")",
 			} {
 				fmt.Fprintf(&prov, "\temit(\"lit \" + %s)\n", e)
 			}
 			fmt.Fprintf(&prov, "\tfor k, v := range lm%sw {\n\t\temit(\"lit \" + k + \" \" + v)\n\t}\n", mk)
 			fmt.Fprintf(&prov, "\ta, b := lf%swLocal()\n\temit(\"lit \" + a + \" \" + string(b))\n", mk)
-			fmt.Fprintf(&prov, "\temit(\"lit \" + strconv.Itoa(lf%swSwitch(lf%swArg(%s))))\n}\n", mk, mk, q(p.Lits[len(p.Lits)-6].Text))
+			fmt.Fprintf(&prov, "\temit(\"lit \" + strconv.Itoa(lf%swSwitch(lf%swArg(%s))))\n}\n", mk, mk, q(p.Lits[len(p.Lits)-8].Text))
 			fmt.Fprintf(&use, "@QLits%sw(emit)\n", mk)
 			return prov.String(), use.String()
 		},
